@@ -42,7 +42,7 @@ VARIANTS = [
          old='''        if "observed" in cols:
             meter_data = meter_data[np.isfinite(meter_data["observed"])]
 ''', new=""),
-    dict(id="c07-missing-observed-kept", property="C07", kind="break", expect_rule="R07.3", expect_key="drop-missing-observed", file=D,
+    dict(id="c07-missing-observed-kept", property="C07", kind="break", expect_rule="R07.3", expect_key="kept-rows-complete", file=D,
          edits=[dict(file=D, old="        meter_data = meter_data.dropna()\n", new="        meter_data = meter_data.dropna(subset=[\"temperature\"])\n"),
                 dict(file=D, old='''        if "observed" in cols:
             meter_data = meter_data[np.isfinite(meter_data["observed"])]
